@@ -22,8 +22,10 @@ TECHNIQUE = ('exhaustive enumeration of all configuration-edit sequences up to a
 RULE = ('configuration = three watcher slots (a, b, c) each absent or present with numprocesses, cmd, graceful_timeout and an '
         'optional [env:NAME] section, plus an optional global [env] section; edit operators: add/remove a slot, numprocesses '
         '+1/-1, change cmd, change another option, toggle env:NAME, toggle [env] (toggles make "revert to an earlier value" part '
-        'of the alphabet), and "no edit"; ALL edit sequences of length <= D, reloadconfig after every edit; non-trivial = the '
-        'last edit changes the file')
+        'of the alphabet), and "no edit"; ALL edit sequences of length <= D, reloadconfig after every edit; plus compound edits '
+        '(two options of one section in one edit) and failed reloads (an edit that makes a section unloadable, 0-1 further '
+        'edits, then the edit taken back: judged against a fresh start once the file loads again); non-trivial = the last edit '
+        'changes the file')
 ASSUMPTIONS = ['the [circus] and socket sections are held fixed (changing them is documented to restart everything)',
                'workers obey the stop signal at once (termination behaviour is C02/C03)']
 
